@@ -399,19 +399,24 @@ def _run_async(kind, cfg, ops, impl):
 _DROPS = None
 
 
-def asyncio_drops_empty() -> bool:
-    """environment fact recorded from the interpreter (not from /repo): does a bare asyncio DatagramTransport.sendto(b"")
-    put a datagram on the wire?  (CPython < 3.13: no)"""
+def async_transport_drops_empty() -> bool:
+    """environment answer recorded on every run: does the AsyncDatagramTransport that AsyncUDPNetworkClient uses
+    (backend.wrap_connected_datagram_socket -> asyncio DatagramTransport) put a datagram on the wire for send(b"")?
+    (CPython < 3.13 with the unpatched backend: no.)  The model covers protocol + endpoint + client above it."""
     global _DROPS
     if _DROPS is None:
         async def probe():
-            loop = asyncio.get_running_loop()
+            from easynetwork.lowlevel.api_async.backend._asyncio.backend import AsyncIOBackend
             peer = socket.socket(socket.AF_INET, socket.SOCK_DGRAM)
             peer.bind(("127.0.0.1", 0))
+            ours = socket.socket(socket.AF_INET, socket.SOCK_DGRAM)
+            ours.bind(("127.0.0.1", 0))
+            ours.connect(peer.getsockname())
+            peer.connect(ours.getsockname())
             peer.setblocking(False)
-            tr, _ = await loop.create_datagram_endpoint(asyncio.DatagramProtocol, remote_addr=peer.getsockname())
+            tr = await AsyncIOBackend().wrap_connected_datagram_socket(ours)
             try:
-                tr.sendto(b"")
+                await tr.send(b"")
                 await asyncio.sleep(0)
                 try:
                     peer.recv(10)
@@ -419,14 +424,20 @@ def asyncio_drops_empty() -> bool:
                 except BlockingIOError:
                     return True
             finally:
-                tr.close()
+                await tr.aclose()
                 peer.close()
         _DROPS = bool(detloop.run(probe(), max_steps=1000))
     return _DROPS
 
 
-def drop_flag(impl) -> int:
-    return int(impl[0] == b"async-udp-client" and asyncio_drops_empty())
+def params():
+    flag = "true" if async_transport_drops_empty() else "false"
+    return ("(* recorded by a probe of the real transport stack under the async UDP client: send(b\"\") reaches the peer? *)\n"
+            f"Definition async_transport_drops_empty : bool := {flag}.\n")
+
+
+def endpoint_code(impl) -> int:
+    return ENDPOINTS.index(impl[0])
 
 
 def run_impl(inp):
@@ -522,7 +533,7 @@ def _mk_case(kind, cfg, ops, impl, tags, burst):
     clean = [op[:3] if op[0] == 0 else op for op in ops]
     if kind != 0:
         clean = [op[:2] if op[0] in (0, 1) else op for op in clean]
-    return dict(input=[kind, cfg, clean, impl, drop_flag(impl)], tags=tags + (["bad-then-good"] if bad_then_good else []) +
+    return dict(input=[kind, cfg, clean, impl, endpoint_code(impl)], tags=tags + (["bad-then-good"] if bad_then_good else []) +
                 (["burst"] if burst else []) + [f"datagrams{len(arr)}"], nontrivial=bool(bad_then_good or burst))
 
 
